@@ -133,7 +133,8 @@ type blockCrypt struct {
 	encbuf    []byte // encryption working buffer
 	decbuf    []byte // decryption working buffer
 	block     cipher.Block
-	blockSize int // cached block size
+	decBlock  cipher.Block // cipher used by Decrypt: block itself unless the implementation keeps scratch state
+	blockSize int          // cached block size
 }
 
 //go:nosplit
@@ -146,7 +147,7 @@ func (c *blockCrypt) Encrypt(dst, src []byte) {
 //go:nosplit
 func (c *blockCrypt) Decrypt(dst, src []byte) {
 	c.decMu.Lock()
-	decrypt(c.block, dst, src, c.decbuf)
+	decrypt(c.decBlock, dst, src, c.decbuf)
 	c.decMu.Unlock()
 }
 
@@ -154,6 +155,7 @@ func newBlockCrypt(block cipher.Block) BlockCrypt {
 	blockSize := block.BlockSize()
 	return &blockCrypt{
 		block:     block,
+		decBlock:  block,
 		blockSize: blockSize,
 		encbuf:    make([]byte, blockSize),
 		decbuf:    make([]byte, 2*blockSize),
@@ -203,7 +205,16 @@ func NewSM4BlockCrypt(key []byte) (BlockCrypt, error) {
 	if err != nil {
 		return nil, err
 	}
-	return newBlockCrypt(block), nil
+	// The sm4 implementation keeps scratch state inside the cipher object, so it is not
+	// safe for concurrent use: Encrypt and Decrypt run concurrently (each under its own
+	// mutex) and therefore need an instance each.
+	decBlock, err := sm4.NewCipher(key)
+	if err != nil {
+		return nil, err
+	}
+	c := newBlockCrypt(block).(*blockCrypt)
+	c.decBlock = decBlock
+	return c, nil
 }
 
 // NewTwofishBlockCrypt https://en.wikipedia.org/wiki/Twofish
